@@ -53,6 +53,15 @@ func C18(e *Env) {
 				os.WriteFile(filepath.Join(troot, fmt.Sprintf("vw%04d.bin", k)), []byte{byte(k), byte(k >> 8)}, 0o644)
 			}
 		}
+		if i%9 == 4 {
+			// members that fill their last sector exactly (no padding after them), followed by others: every
+			// route to the image (reads, positional reads, a whole-image copy as make-iso does) places the
+			// next member in the same sector
+			kind += "+sector-multiples"
+			for k, sz := range []int64{2048, 11, 4096, 0, 6144, 3000, 2048} {
+				os.WriteFile(filepath.Join(troot, fmt.Sprintf("sm%d_%d.bin", k, sz)), tree.Content(int64(500+k), sz), 0o644)
+			}
+		}
 		if i%4 == 1 {
 			// dates the one-byte year field of a directory record cannot hold, the epoch, far future
 			kind += "+odd-dates"
@@ -207,7 +216,7 @@ func C18(e *Env) {
 			run.Count("cross_mode_histories", 1)
 			run.Sig("cross-mode history %s", t.kind)
 		}
-		if e.Bin != "" && i%e.Pick(5, 3) == 0 {
+		if e.Bin != "" && (i%e.Pick(5, 3) == 0 || strings.Contains(t.kind, "sector-multiples")) {
 			out := filepath.Join(e.Scratch, t.name+".cli.iso")
 			code, output := makeISOCLI(e.Bin, filepath.Join(parent, t.name), t.ps3, out)
 			if code != 0 {
